@@ -171,6 +171,21 @@ def executor(ck):
                     ok_e, err_e, _ = T.result_split(ed, t.bb)
                     if err_e and set(ex) <= set(err_e):
                         okd = True
+        # `incoming.try_iter()` yields until try_recv fails: consuming it to exhaustion (for_each / count / last, or a
+        # `for` loop left only on None) is the same drain
+        tis = [cs for cs in T.calls(ed, name="try_iter") if T.path_has(ed, cs.args[0], ".incoming") and not ed.is_cleanup(cs.bb)]
+        for ti in tis:
+            for c in T.calls(ed, name=("for_each", "count", "last")):
+                if not ed.is_cleanup(c.bb) and (c.trait or "") == "std::iter::Iterator" and c.args and T.resolves_to_call(ed, c.args[0], [ti.bb]):
+                    okd = True
+            for h, blk in loops.items():
+                hc = ed.call_at(h)
+                if hc is None or hc.name != "next" or not hc.args or not (T.resolves_to_call(ed, hc.args[0], [ti.bb]) or T.tainted_by_call(ed, hc.args[0], [ti.bb])):
+                    continue
+                some_e, none_e = T.option_split(ed, h)
+                ex = [(a, x) for a, x, lab in T.loop_exit_edges(ed, blk) if lab != "unwind" and ed.blocks[x]["term"]["t"] != "unreachable"]
+                if none_e and set(ex) <= set(none_e):
+                    okd = True
         ck.verdict(okd and (not wk or all(True for _ in wk)), "4", "T5-loop-exit", ed, "drains-queue-until-empty", "the incoming queue is drained until try_recv fails (every queued runnable, hence every future, is dropped on this thread)", "the executor's drop does not drain the queue until empty: queued runnables (and their futures) outlive the executor", site=ed.where())
     sc = ck.opt_body("Scheduler::schedule")
     if sc is None:
